@@ -5,6 +5,7 @@ import (
 	"encoding/json"
 	"fmt"
 	"strings"
+	"verif/internal/envrun"
 
 	"github.com/google/jsonschema-go/jsonschema"
 
@@ -17,11 +18,14 @@ import (
 
 var enumPool = []string{`null`, `true`, `0`, `1`, `1.5`, `256`, `9007199254740992`, `9007199254740993`, `"a"`, `"1"`, `[1]`, `[1,2]`, `{"a":1}`, `{"a":null}`, `[]`, `{}`, `{"a":1,"b":2}`, `9223372036854775808`}
 
-type member struct {
-	x     any
-	desc  string
-	canon string
+// Member is one element of the uniqueItems pool.
+type Member struct {
+	X     any
+	Desc  string
+	Canon string
 }
+
+type member = Member
 
 // altRep gives a non-canonical but exact Go representation of a value.
 func altRep(v *ref.Val, k int) (any, bool) {
@@ -39,14 +43,15 @@ func altRep(v *ref.Val, k int) (any, bool) {
 }
 
 // U is the uniqueItems element pool: equal-but-not-identical members included.
-func uniquePool() []member {
+// UniquePool is the uniqueItems element pool.
+func UniquePool() []Member {
 	var out []member
 	add := func(x any) {
 		c, ok := ref.CanonGo(x)
 		if !ok {
 			panic("c12: out-of-domain pool element " + gen.Describe(x))
 		}
-		out = append(out, member{x, gen.Describe(x), c})
+		out = append(out, member{X: x, Desc: gen.Describe(x), Canon: c})
 	}
 	add(float64(1))
 	add(json.Number("1.0"))
@@ -256,7 +261,7 @@ func Run(r *ev.Run) {
 	}
 
 	// (ii) uniqueItems
-	pool := uniquePool()
+	pool := UniquePool()
 	us := &jsonschema.Schema{UniqueItems: true}
 	urs, err := us.Resolve(nil)
 	if err != nil {
@@ -300,9 +305,9 @@ func Run(r *ev.Run) {
 		ds := make([]string, len(a))
 		want := true
 		for k, e := range a {
-			xs[k], ds[k] = pool[e].x, pool[e].desc
+			xs[k], ds[k] = pool[e].X, pool[e].Desc
 			for q := 0; q < k; q++ {
-				if pool[a[q]].canon == pool[e].canon {
+				if pool[a[q]].Canon == pool[e].Canon {
 					want = false
 				}
 			}
@@ -324,4 +329,7 @@ func Run(r *ev.Run) {
 			r.Sample(map[string]any{"call": key, "want_valid": want})
 		}
 	})
+	if r.OnlyKey == "" || true {
+		envrun.Explore(r, "ENV", "c12hash", "env", 16)
+	}
 }
